@@ -111,6 +111,8 @@ def setup():
     try:
         for i in range(300):
             run_case(gen_case(Streams(derive_seed("warm", i)), "quick"))
+    except Exception:  # noqa: BLE001 - warm-up only; the search itself reports what is wrong
+        pass
     finally:
         _ENV["no_thread"] = False
 
@@ -558,6 +560,13 @@ def run_case(case):
         run_block(case["program"])
     except Boom:
         pass
+    except Exception as e:  # noqa: BLE001 - raised by PennyLane's own queuing machinery
+        import traceback
+
+        tb = traceback.extract_tb(e.__traceback__)
+        where = next((f"{fr.filename.rsplit('/', 1)[-1]}:{fr.name}" for fr in reversed(tb)
+                      if "/pennylane/" in fr.filename), "?")
+        viol("unexpected_exception", {"where": "program", "raised_in": where}, {"error": repr(e)[:200]})
     # ---- after the program: everything must be back to normal ------------------------------------
     if QM.recording() or QM.active_context() is not None:
         viol("stack_not_restored", {"where": "program_end"},
@@ -590,7 +599,7 @@ def run_case(case):
         done.set()
     else:
         done = _helper().ask(lambda: probe("thread"))
-    if not done.wait(timeout=5):
+    if not done.wait(timeout=2):
         viol("queuing_lock_leaked", {"where": "probe_thread"}, {"note": "a second thread cannot enter AnnotatedQueue/QuantumTape"})
         # release the leaked lock(s) so that this worker can continue
         for lk in (AQ._lock, Tape._lock):
